@@ -168,6 +168,15 @@ def reprStr (s : String) : String :=
   let quote : Char := if s.toList.contains '\'' && !s.toList.contains '"' then '"' else '\''
   String.singleton quote ++ String.join (s.toList.map (escapeChar quote)) ++ String.singleton quote
 
+/-- Build a map from key/value pairs in source order: string keys only (anything else is outside
+the fragment), a later duplicate key overwrites, iteration order is key order. -/
+def insertPairs : List (Val × Val) → List (String × Val) → Res (List (String × Val))
+  | [], acc => .ok acc
+  | (.str k, v) :: rest, acc => insertPairs rest (match assocGet k acc with
+      | some _ => mapInsert k v (acc.filter fun p => p.1 != k)
+      | none => mapInsert k v acc)
+  | _ :: _, _ => .error .outOfFragment
+
 mutual
   /-- `Debug` rendering, used for the elements of lists and maps -/
   def reprVal : Val → String
@@ -618,7 +627,8 @@ def evalExpr : Nat → Scope → Heap → List Nat → Expr → Res Val
       .ok (.list vs)
     | .map kvs => do
       let ps ← evalPairs fuel ctx heap stack kvs
-      .ok (.map ps)
+      let m ← insertPairs ps []
+      .ok (.map m)
 
 def evalList : Nat → Scope → Heap → List Nat → List Expr → Res (List Val)
   | 0, _, _, _, _ => .error .fuel
@@ -628,19 +638,15 @@ def evalList : Nat → Scope → Heap → List Nat → List Expr → Res (List V
     let vs ← evalList fuel ctx heap stack es
     .ok (v :: vs)
 
-/-- map literal: string keys only; later duplicates win; result sorted by key -/
-def evalPairs : Nat → Scope → Heap → List Nat → List (Expr × Expr) → Res (List (String × Val))
+/-- the key / value expressions of a map literal, evaluated left to right -/
+def evalPairs : Nat → Scope → Heap → List Nat → List (Expr × Expr) → Res (List (Val × Val))
   | 0, _, _, _, _ => .error .fuel
   | _ + 1, _, _, _, [] => .ok []
   | fuel + 1, ctx, heap, stack, (k, e) :: rest => do
     let kv ← evalExpr fuel ctx heap stack k
     let v ← evalExpr fuel ctx heap stack e
     let ps ← evalPairs fuel ctx heap stack rest
-    match kv with
-    | .str key => .ok (match assocGet key ps with
-      | some _ => ps
-      | none => mapInsert key v ps)
-    | _ => .error .outOfFragment
+    .ok ((kv, v) :: ps)
 
 def evalArgs : Nat → Scope → Heap → List Nat → Args → Res (List (Option String × Val))
   | 0, _, _, _, _ => .error .fuel
